@@ -542,7 +542,7 @@ def _set_name_and_type(param, infer_type, word_wrap, none_default_for_kwargs=Fal
     name, _param = param
     del param
     was = deepcopy(_param)
-    was_none = was.get("default") in frozenset((cdd.shared.ast_utils.NoneStr, "None"))
+    was_none = was.get("default") in (cdd.shared.ast_utils.NoneStr, "None")
     if "doc" in _param:
         cdd.shared.parse.utils.parser_utils.merge_present_params(
             target_param=_param,
